@@ -177,7 +177,37 @@ pub open spec fn spec_val_dec(tag: u8, b: Seq<u8>) -> Option<AVal> {
 }
 
 
+// ------------------------------------------------------------------ message framing (RFC 8010 §3.1.1)
+
+/// Scan the attribute section that starts at `b` (just after the 8-octet header) by the RFC grammar and
+/// return what follows the end-of-attributes tag: `None` when the section is cut short or a byte outside
+/// the delimiter (0x01-0x05) and value (0x10-0x4a) tag ranges stands where a tag is expected.
+pub open spec fn scan_rest(b: Seq<u8>) -> Option<Seq<u8>>
+    decreases b.len()
+{
+    if b.len() == 0 {
+        None
+    } else if b[0] == 0x03 {
+        Some(b.skip(1))
+    } else if 0x01 <= b[0] <= 0x05 {
+        scan_rest(b.skip(1))
+    } else if 0x10 <= b[0] <= 0x4a {
+        let c = b.skip(1);
+        if c.len() >= 2 && c.len() >= 2 + be16(c) as int + 2
+            && c.len() >= 2 + be16(c) as int + 2 + be16(c.skip(2).skip(be16(c) as int)) as int {
+            scan_rest(c.skip(2).skip(be16(c) as int).skip(2).skip(be16(c.skip(2).skip(be16(c) as int)) as int))
+        } else {
+            None
+        }
+    } else {
+        None
+    }
+}
+
 // ------------------------------------------------------------------ encoder (RFC 8010 §3.1, §3.9)
+
+/// What `IppAttributes::to_bytes` returns (pinned by that function's own contract).
+pub uninterp spec fn spec_attrs_bytes(a: &crate::attribute::IppAttributes) -> Seq<u8>;
 
 /// version-number (2 octets), operation-id / status-code (2), request-id (4), big-endian (§3.1.1)
 pub open spec fn spec_header_enc(h: crate::IppHeader) -> Seq<u8> {
